@@ -67,6 +67,10 @@ pub fn replay_case<H: HB>(c: &Case) -> Result<(), String> {
             return crate::post::from_iter_differential::<H>(c.double, &c.universe, seq, true).map(|_| ()).map_err(|e| e.1);
         }
     }
+    if c.probe.as_deref() == Some("capacity-grid") {
+        let last = c.last.clone().ok_or("capacity-grid case without an operation")?;
+        return if c.double { crate::props::replay_capacity_case::<DPQ<H>>(&c.ops, &last) } else { crate::props::replay_capacity_case::<PQ<H>>(&c.ops, &last) };
+    }
     if c.probe.as_deref() == Some("cost-grid") {
         return crate::cost::replay_grid(c);
     }
